@@ -32,16 +32,16 @@ when it is shown as a table, otherwise the footnote when it is, otherwise nothin
 caller's `has_footnote_on_page` / `has_source_on_page`) -/
 theorem C07py_component_translated (hf hs : Bool) (style : List Nat) (fn src : Option Foot) :
     run hf hs style fn src =
-      if hs && asTable src false then [(some kSource, style)]
-      else if hf && asTable fn true then [(some kFootnote, style)] else [] := by
+      if hs && asTable src false then [(kSource, style)]
+      else if hf && asTable fn true then [(kFootnote, style)] else [] := by
   have e1 : kSource = [115, 111, 117, 114, 99, 101] := by decide
   have e2 : kFootnote = [102, 111, 111, 116, 110, 111, 116, 101] := by decide
   rw [e1, e2]
   cases hf <;> cases hs <;> rcases fn with _ | ⟨_ | _⟩ <;> rcases src with _ | ⟨_ | _⟩ <;> simp [run, asTable]
 
 /-- the value `renderer.py` reads back: `page.component_borders.get(key)` after the writes -/
-def lookup (key : List Nat) (ws : List (Option (List Nat) × List Nat)) : Option (List Nat) :=
-  (ws.reverse.find? (fun w => w.1 == some key)).map (·.2)
+def lookup (key : List Nat) (ws : List (List Nat × List Nat)) : Option (List Nat) :=
+  (ws.reverse.find? (fun w => w.1 == key)).map (·.2)
 
 /-- **the overrides of the model are the writes of the code**: when a style closes the page (`closingStyle b = some st`)
 and a table-rendered component ends it, `applyBorders` hands the style to the component the code writes it to.
